@@ -64,6 +64,9 @@ pub struct Opts {
     pub tight: bool,
     /// comments and directives are followed by a lone CR instead of LF
     pub cr_comments: bool,
+    /// a second verbatim region shortly after the first; regions that run to the end of the file; runs of blank lines
+    /// in the middle of statements (only for the layouts of C07 / C08, never for re-layout pairs)
+    pub regions2: bool,
     /// spacing mode: 0 = one space everywhere, 1 = pretty (new line per marked token, indented), 2 = random mixture,
     /// 3 = every gap a line break, 4 = CRLF pretty with tabs
     pub spacing_mode: u32,
@@ -236,17 +239,27 @@ pub fn render(p: &Program, deco: u64, spacing: u64, o: &Opts) -> Rendered {
             }
         }
     }
-    // verbatim regions
-    let mut region_open: Option<(usize, usize, String, String)> = None;
+    // verbatim regions: (first token, last token, off comment, on comment or "" when the region runs to the end of the file)
+    let mut region_list: Vec<(usize, usize, String, String)> = vec![];
     if o.regions && n >= 2 {
         let mut r = gap_rng(deco, 0, 9);
         let a = r.gen_range(0..n);
         let span = r.gen_range(0..12);
         let b = r.gen_range(a..n.min(a + 1 + span));
-        let offs = ["// pasfmt off", "//pasfmt off", "{pasfmt off}", "(* pasfmt off *)", "// PASFMT OFF", "{ pasfmt   off }", "// pasfmt off and some words"];
-        let ons = ["// pasfmt on", "{pasfmt on}", "(* PasFmt On *)", "//pasfmt on", "// pasfmt on again"];
-        region_open = Some((a, b, offs[r.gen_range(0..offs.len())].to_string(), ons[r.gen_range(0..ons.len())].to_string()));
+        let offs = ["// pasfmt off", "//pasfmt off", "{pasfmt off}", "(* pasfmt off *)", "// PASFMT OFF", "{ pasfmt   off }", "// pasfmt off and some words",
+                    "{\r\n pasfmt off\r\n}", "(*\n  pasfmt\r\n off *)", "{\tpasfmt\toff}"];
+        let ons = ["// pasfmt on", "{pasfmt on}", "(* PasFmt On *)", "//pasfmt on", "// pasfmt on again", "{\r\npasfmt\r\non }"];
+        let to_eof = o.regions2 && r.gen_range(0..4) == 0;
+        region_list.push((a, if to_eof { n - 1 } else { b }, offs[r.gen_range(0..offs.len())].to_string(), if to_eof { String::new() } else { ons[r.gen_range(0..ons.len())].to_string() }));
+        if o.regions2 && !to_eof && b + 3 < n {
+            // a second region a few tokens later (often inside the same statement)
+            let a2 = b + 1 + r.gen_range(1..4).min(n - b - 2);
+            let b2 = (a2 + r.gen_range(0..6)).min(n - 1);
+            region_list.push((a2, b2, offs[r.gen_range(0..7)].to_string(), ons[r.gen_range(0..5)].to_string()));
+        }
     }
+    let region_starting_at = |i: usize| region_list.iter().find(|x| x.0 == i);
+    let region_ending_at = |i: usize| region_list.iter().find(|x| x.1 == i);
 
     // 3. emit
     let mut text = String::new();
@@ -293,23 +306,22 @@ pub fn render(p: &Program, deco: u64, spacing: u64, o: &Opts) -> Rendered {
                     // zero-width gaps, except after a literal: there the formatter deliberately keeps "at most one" space
                     // of the input (known finding F8), which is probed separately
                     63..=67 => if o.tight && !toks[i - 1].starts_with(|c: char| c.is_ascii_digit() || matches!(c, '$' | '%' | '\'' | '#')) { String::new() } else { " ".to_string() },
-                    68..=84 => nl.to_string(),
+                    68..=70 => if o.regions2 { format!("{nl}{nl}{nl}") } else { nl.to_string() },
+                    71..=84 => nl.to_string(),
                     _ => format!("{nl}{}", " ".repeat(r.gen_range(1..13))),
                 },
             }
         };
         // region start
-        if let Some((a, _, off, _)) = &region_open {
-            if *a == i {
-                if i > 0 {
-                    text.push_str(nlc);
-                }
-                region_start = Some(text.len());
-                text.push_str(off);
+        if let Some((_, _, off, _)) = region_starting_at(i) {
+            if i > 0 {
                 text.push_str(nlc);
-                need_newline = false;
-                inserted += 1;
             }
+            region_start = Some(text.len());
+            text.push_str(off);
+            text.push_str(nlc);
+            need_newline = false;
+            inserted += 1;
         }
         let in_region = region_start.is_some();
         // directives before this token (own lines)
@@ -389,7 +401,7 @@ pub fn render(p: &Program, deco: u64, spacing: u64, o: &Opts) -> Rendered {
                 if after_directive {
                     // a gap that touches a directive is kept by every re-layout
                     text.push_str(&ind_c);
-                } else if in_region && region_open.as_ref().is_some_and(|x| x.0 == i) {
+                } else if in_region && region_starting_at(i).is_some() {
                     // first token of the region follows the off comment's line
                 } else {
                     let g = plain_gap(&mut r, need_newline);
@@ -401,8 +413,8 @@ pub fn render(p: &Program, deco: u64, spacing: u64, o: &Opts) -> Rendered {
         let _ = need_newline;
         text.push_str(&toks[i]);
         // region end
-        if let Some((_, b, _, on)) = &region_open {
-            if *b == i {
+        if let Some((_, _, _, on)) = region_ending_at(i) {
+            if !on.is_empty() {
                 if let Some(s) = region_start.take() {
                     text.push_str(nlc);
                     text.push_str(on);
@@ -420,10 +432,18 @@ pub fn render(p: &Program, deco: u64, spacing: u64, o: &Opts) -> Rendered {
         text.push_str(d);
         inserted += 1;
     }
+    let mut open_at_eof = false;
     if let Some(s) = region_start.take() {
+        let mut r = gap_rng(deco, n, 11);
+        match r.gen_range(0..3) {
+            0 => text.push_str(" // tail"),
+            1 => text.push_str("\n\n  "),
+            _ => {}
+        }
         regions.push((s, text.len()));
+        open_at_eof = true;
     }
-    if o.spacing_mode == 1 || o.spacing_mode == 4 || o.spacing_mode == 5 {
+    if !open_at_eof && (o.spacing_mode == 1 || o.spacing_mode == 4 || o.spacing_mode == 5) {
         text.push_str(nl);
     }
     Rendered { text, plain: toks, marks, regions, inserted, idents }
